@@ -34,13 +34,15 @@ MANIFEST = {
             'the harness and validated by the model; file parsing itself is outside the model (post-read store is '
             'loaded from the implementation, the oracle compares content through the file). evaluate_labels is '
             'compared with the property interpreter only for programs with at most one operation per label and block '
-            '(as the property states); programs with several are compared with the model only.',
+            '(as the property states); programs with several are compared with the model only. Finding C19/int32-*: '
+            'the reader stores label values as np.int32, so a written value >= 2**31 makes read() raise and INC sums '
+            'wrap after a reload (repair: int64 in read_seq.__read_and_parse_events).',
     'technique': 'Rocq/Coq proof (store invariant over operation histories, list induction, permutation) + '
                  'extraction-based differential testing with an independent interpreter as oracle',
 }
 BUDGET = {'quick': 75, 'thorough': 1500}
 MISMATCH_BUDGET = 0.0
-ESCALATE_BUDGET = 150
+ESCALATE_BUDGET = 60
 SEARCH_BUDGET = 90
 RULE = ('label programs of 1-14 blocks over a per-program subset of the supported labels; each block carries 0-5 '
         'label operations (SET/INC; values small, large, zero, negative, booleans for flag labels), 0-3 '
@@ -57,8 +59,9 @@ TRUSTED = ['np.argsort tie order among equal reference ids is taken from NumPy (
            'read(): the post-read store is taken from the implementation (Load); the oracle compares content '
            'through the file independently of the model',
            'numeric extraction inside register_rf/grad_event is taken from the implementation (opaque rows)']
-ASSUMPTIONS = ['label values within int32 (the reader stores them as np.int32); trigger delay/duration are '
-               'multiples of 1 us (file resolution) and shorter than the block',
+ASSUMPTIONS = ['random label values stay within int32; values and running sums beyond int32 are exercised by the dedicated '
+               'int32 stream only (signature C19/int32-*); trigger delay/duration are multiples of 1 us (file '
+               'resolution) and shorter than the block',
                'evaluate_labels oracle only for at most one operation per label and block (property text)']
 
 MODES = ['none', 'adc', 'label', 'blocks']
@@ -254,6 +257,8 @@ def close(a, b):
 def check_sequence(ctx, case, seq, expect, tag):
     """storage + evaluation oracle on one Sequence object (expect: per block (labels, trigs, adc))"""
     ok = True
+    if case.get('stream') == 'int32':
+        tag = 'int32-' + tag
     ids = list(seq.block_events.keys())
     if len(ids) != len(expect):
         ctx.fail('C19/%s-block-count' % tag, case, {'blocks': len(ids), 'expected': len(expect)})
@@ -456,14 +461,15 @@ def run_program(ctx, case, pending):
             seq2.read(fn)
             s2 = seq2
         except Exception as e:  # noqa: BLE001
-            ctx.fail('C19/write-read-raises', case, {'exception': repr(e)[:300]})
+            ctx.fail('C19/int32-write-read-raises' if case['stream'] == 'int32' else 'C19/write-read-raises', case,
+                     {'exception': repr(e)[:300]})
     if s2 is not None:
         r = Single(seq=s2)
         r.loaded()
         for i in list(s2.block_events.keys()):
             r.get(i)
         check_sequence(ctx, case, s2, expect, 'reread')
-        if ctx.model_available:
+        if ctx.model_available and case['stream'] != 'int32':
             pending.append((case, r, init, 'reread'))
     nlab = sum(1 for b in case['blocks'] if b['ops'])
     shared = len({int(v[6]) for v in s.on.block_events.values() if v[6]}) < sum(1 for v in s.on.block_events.values() if v[6])
@@ -584,6 +590,23 @@ def boundary_stream(ctx):
     flush(ctx, pending)
 
 
+def int32_stream(ctx, rng):
+    """label values / sums outside int32: the writer prints them, the reader must give them back"""
+    def blk(ops, adc=True):
+        return {'ops': ops, 'trigs': [], 'extra': [['adc', 16, 1e-5, 0]] if adc else [], 'order': 0.0}
+    big = rng.choice([2 ** 31, 2 ** 31 + rng.randint(1, 10 ** 6), 2 ** 40 + rng.randint(0, 99), -2 ** 31 - rng.randint(1, 10 ** 6)])
+    cases = [
+        {'stream': 'int32', 'init': [], 'blocks': [blk([['SET', 'LIN', big]])]},
+        {'stream': 'int32', 'init': [], 'blocks': [blk([['INC', 'LIN', 2 ** 30]]), blk([['INC', 'LIN', 2 ** 30]]), blk([['INC', 'LIN', 2 ** 30]])]},
+        {'stream': 'int32', 'init': [], 'blocks': [blk([['SET', 'PAR', 2 ** 31 - 1]]), blk([['INC', 'PAR', rng.randint(1, 9)]], adc=False)]},
+        {'stream': 'int32', 'init': [['SLC', 2 ** 31 - 1]], 'blocks': [blk([['INC', 'SLC', 1]])]},
+    ]
+    pending = []
+    for c in cases:
+        run_program(ctx, c, pending)
+    flush(ctx, pending)
+
+
 def corpus():
     c1 = {'stream': 'corpus', 'init': [['LIN', 10], ['PAR', 2]], 'blocks': [
         {'ops': [['INC', 'LIN', 1], ['SET', 'SLC', 3]], 'trigs': [['trigger', 'physio1', 100, 200]], 'extra': [], 'order': 0.0},
@@ -600,12 +623,13 @@ def corpus():
 
 
 def run(ctx):
-    n_prog = {'quick': 260, 'thorough': 12000}[ctx.tier]
+    n_prog = {'quick': 700, 'thorough': 12000}[ctx.tier]
     pending = []
     for c in corpus():
         run_program(ctx, c, pending)
     flush(ctx, pending)
     boundary_stream(ctx)
+    int32_stream(ctx, ctx.rng('int32'))
     rng = ctx.rng('programs')
     rngm = ctx.rng('multi')
     for n in range(n_prog):
@@ -620,7 +644,8 @@ def run(ctx):
         if len(pending) >= 60:
             flush(ctx, pending)
     flush(ctx, pending)
-    pure_stream(ctx, ctx.rng('pure'), {'quick': 1500, 'thorough': 40000}[ctx.tier])
+    # (an escalated or time-boxed thorough run keeps the pure stream at quick size)
+    pure_stream(ctx, ctx.rng('pure'), 3000 if (ctx.tier == 'quick' or ctx.out_of_time()) else 40000)
 
 
 def replay(ctx, case):
